@@ -79,6 +79,14 @@ func execOp(s *exec.State, ev abs.V) {
 		if _, ok := s.Pk[h]; ok {
 			s.String(h)
 		}
+	case "validate":
+		if _, ok := s.Pk[h]; ok {
+			s.Validate(h)
+		}
+	case "cname":
+		if _, ok := s.Pk[h]; ok {
+			s.CNAME(h)
+		}
 	case "unmarshal":
 		dh := 0
 		if x, ok := ev["dh"]; ok {
